@@ -331,6 +331,11 @@ func simC03Sets(c *Ctx) {
 	r.capsule = r.ety.HasCapsule()
 	unknowns := c.G(4) == 3
 	o := GenOpts{Null: true, Unknown: unknowns, Refine: true, Collide: true, MaxLen: 2}
+	if c.G(3) == 0 {
+		// one bucket, several members the set order can tell apart: a family of truly colliding strings / integers
+		o.Fam = 1 + c.G(10)
+		c.Probe("c03.true-collision-family")
+	}
 	n := 4 + c.G(20)
 	if c.G(6) == 0 {
 		// large sets: sorting and bucket code changes behaviour with size (library sorts switch algorithm
